@@ -138,17 +138,20 @@ impl binrw::BinWrite for Mso {
 
         // if we need to encode the string, we need to move the textstart transparently for the
         // user
+        let mut res = codepages::to_lossy_bytes(&self.msg).to_vec();
+        res.truncate(MSO_MSG_MAX_LEN);
+
         let textstart = if self.textstart > 0 {
             let name = &self.msg[..self.textstart as usize];
             let textstart = codepages::to_lossy_bytes(name).len();
 
-            textstart as u8
+            // the text cannot start beyond the end of the (possibly cut) message
+            textstart.min(res.len()) as u8
         } else {
             self.textstart
         };
 
         textstart.write_options(writer, endian, ())?;
-        let mut res = codepages::to_lossy_bytes(&self.msg).to_vec();
 
         let align_to = MSO_MSG_ALIGN - 1;
         let round_to = (res.len() + align_to) & !align_to;
